@@ -39,6 +39,8 @@ def instances(tier, rng):
         gl.append(("rndmulti%d" % k, n, graphs.random_multigraph(rng, n, rng.randint(2, 6 if tier == "quick" else 9))))
     for nm, n, es in gl:
         out.append(dict(name="%s/vars" % nm, n=n, edges=es, mode="vars", form="list"))
+        for how in ("rev", "alt"):
+            out.append(dict(name="%s/vars/%s" % (nm, how), n=n, edges=E.orient(es, how), mode="vars", form="list"))
         if len(es) >= 2:
             out.append(dict(name="%s/vars/hist" % nm, n=n, edges=es, mode="vars", form="list", history=len(es) // 2))
         if len(es) <= 6:
